@@ -208,7 +208,7 @@ def run(mnemonics, profiles=("dev", "release")):
             var = mapping.get(m)
             if var not in order:
                 r.update(verdict="fail", reason="mnemonic has no folding operator")
-                r["failed"].append({"check": "[C08] fold: mnemonic has no folding operator", "values": None, "native": None})
+                r["failed"].append({"check": "[C08,C01] fold: mnemonic has no folding operator", "values": None, "native": None})
                 continue
             try:
                 disc = Val("int", "isize", term=bv(order.index(var), 64))
@@ -281,7 +281,7 @@ def run(mnemonics, profiles=("dev", "release")):
                     nat = native(["eval", m, vx, vy], profile)
                     want_v = py_ref(MNEMONIC_OP[m], vx, vy)
                     reproduced = (nat == "PANIC") if kind == "panic" else (nat not in ("PANIC",) and int(nat) != want_v)
-                    desc = msg if kind == "panic" else "[C08] fold: result differs from RV32IM semantics"
+                    desc = msg if kind == "panic" else "[C08,C01] fold: result differs from RV32IM semantics"
                     r["failed"].append({"check": desc, "values": [vx, vy], "native": nat, "expected": want_v, "reproduced": reproduced})
                 else:
                     inconclusive = "solver answered %s on query %d" % ("/".join(sorted(sts)), i)
